@@ -1916,3 +1916,207 @@ def _(ex, a):
     _track_cap(v)
     v.x['cap'] = _cap_after(v.x['cap'], len(v.f) + _cidx(a[1]))
     return UNIT()
+
+
+# ------------------------------------------------------------------ more Option / Result combinators
+@prim('Result::or_else')
+def _(ex, a):
+    if a[0].variant == 0:
+        return a[0]
+    return ex.call_closure(a[1], [a[0].f[0]])
+
+
+@prim('Result::and_then')
+def _(ex, a):
+    if a[0].variant == 1:
+        return a[0]
+    return ex.call_closure(a[1], [a[0].f[0]])
+
+
+@prim('Result::or')
+def _(ex, a):
+    if a[0].variant == 0:
+        ex.drop(a[1])
+        return a[0]
+    ex.drop(a[0].f[0])
+    return a[1]
+
+
+@prim('Result::and')
+def _(ex, a):
+    if a[0].variant == 1:
+        ex.drop(a[1])
+        return a[0]
+    ex.drop(a[0].f[0])
+    return a[1]
+
+
+@prim('Result::unwrap_or_else')
+def _(ex, a):
+    if a[0].variant == 0:
+        return a[0].f[0]
+    return ex.call_closure(a[1], [a[0].f[0]])
+
+
+@prim('Result::unwrap_err', 'Result::expect_err')
+def _(ex, a):
+    if a[0].variant == 0:
+        raise RustPanic('called `Result::unwrap_err()` on an `Ok` value')
+    return a[0].f[0]
+
+
+@prim('Result::as_ref', 'Result::as_mut')
+def _(ex, a):
+    r = ex.deref(a[0])
+    return Agg('Result', [Ref(a[0].cell, tuple(a[0].path) + (('f', 0),))], r.variant)
+
+
+@prim('Result::is_ok_and', 'Option::is_some_and')
+def _(ex, a):
+    ok = a[0].variant == (0 if a[0].kind == 'Result' else 1)
+    if not ok:
+        if a[0].f:
+            ex.drop(a[0].f[0])
+        return False
+    return as_bool(ex, ex.call_closure(a[1], [a[0].f[0]]))
+
+
+@prim('Result::map_or', 'Option::map_or')
+def _(ex, a):
+    ok = a[0].variant == (0 if a[0].kind == 'Result' else 1)
+    if ok:
+        ex.drop(a[1])
+        return ex.call_closure(a[2], [a[0].f[0]])
+    return a[1]
+
+
+@prim('Option::map_or_else')
+def _(ex, a):
+    if a[0].variant == 1:
+        return ex.call_closure(a[2], [a[0].f[0]])
+    return ex.call_closure(a[1], [])
+
+
+@prim('Option::or')
+def _(ex, a):
+    if a[0].variant == 1:
+        ex.drop(a[1])
+        return a[0]
+    return a[1]
+
+
+@prim('Option::or_else')
+def _(ex, a):
+    if a[0].variant == 1:
+        return a[0]
+    return ex.call_closure(a[1], [])
+
+
+@prim('Option::and')
+def _(ex, a):
+    if a[0].variant == 0:
+        ex.drop(a[1])
+        return NONE()
+    ex.drop(a[0].f[0])
+    return a[1]
+
+
+@prim('Option::filter')
+def _(ex, a):
+    if a[0].variant == 0:
+        return a[0]
+    c = Cell(a[0].f[0])
+    if as_bool(ex, ex.call_closure(a[1], [Ref(c)])):
+        return Some(c.v)
+    ex.drop(c.v)
+    return NONE()
+
+
+@prim('Option::xor')
+def _(ex, a):
+    if a[0].variant == 1 and a[1].variant == 0:
+        return a[0]
+    if a[0].variant == 0 and a[1].variant == 1:
+        return a[1]
+    ex.drop(a[0])
+    ex.drop(a[1])
+    return NONE()
+
+
+@prim('Option::zip')
+def _(ex, a):
+    if a[0].variant == 1 and a[1].variant == 1:
+        return Some(Agg('tuple', [a[0].f[0], a[1].f[0]]))
+    ex.drop(a[0])
+    ex.drop(a[1])
+    return NONE()
+
+
+@prim('Option::get_or_insert_with')
+def _(ex, a):
+    o = ex.deref(a[0])
+    if o.variant == 0:
+        o.variant, o.f = 1, [ex.call_closure(a[1], [])]
+    return Ref(a[0].cell, tuple(a[0].path) + (('f', 0),))
+
+
+@prim('Option::insert')
+def _(ex, a):
+    o = ex.deref(a[0])
+    if o.variant == 1:
+        ex.drop(o.f[0])
+    o.variant, o.f = 1, [a[1]]
+    return Ref(a[0].cell, tuple(a[0].path) + (('f', 0),))
+
+
+@prim('Option::replace')
+def _(ex, a):
+    o = ex.deref(a[0])
+    old = Some(o.f[0]) if o.variant == 1 else NONE()
+    o.variant, o.f = 1, [a[1]]
+    return old
+
+
+@prim('Option::unwrap_or_default', 'Result::unwrap_or_default')
+def _(ex, a):
+    ok = a[0].variant == (0 if a[0].kind == 'Result' else 1)
+    if ok:
+        return a[0].f[0]
+    raise Unsupported('unwrap_or_default: default value of an unknown type')
+
+
+@prim('Option::iter', 'Option::into_iter', '<Option as IntoIterator>::into_iter')
+def _(ex, a):
+    o = ex.deref_all(a[0]) if isinstance(a[0], Ref) else a[0]
+    if isinstance(a[0], Ref):
+        return Agg('VecIntoIter', [Ref(a[0].cell, tuple(a[0].path) + (('f', 0),))] if o.variant == 1 else [])
+    return Agg('VecIntoIter', list(o.f) if o.variant == 1 else [])
+
+
+@prim('Option::ok_or', 'Option::ok_or_else')
+def _(ex, a):
+    if a[0].variant == 1:
+        if not (isinstance(a[1], Agg) and a[1].kind.startswith('{closure')):
+            ex.drop(a[1])
+        return Ok(a[0].f[0])
+    if isinstance(a[1], Agg) and a[1].kind.startswith('{closure'):
+        return Err(ex.call_closure(a[1], []))
+    return Err(a[1])
+
+
+@prim('Iterator::min', 'Iterator::max')
+def _(ex, a):
+    raise Unsupported('Iterator::min/max')
+
+
+@prim('bool::then')
+def _(ex, a):
+    return Some(ex.call_closure(a[1], [])) if as_bool(ex, a[0]) else NONE()
+
+
+@prim('bool::then_some')
+def _(ex, a):
+    if as_bool(ex, a[0]):
+        return Some(a[1])
+    ex.drop(a[1])
+    return NONE()
